@@ -26,7 +26,7 @@ fn run_lines(sk: &Skeleton, lines: &[Line]) -> Res {
 /// Compare two outcomes. `qscale(ticker, day)` = factor by which quantities of `b` on that disposal day exceed those of `a`
 /// (1 everywhere except for C10 twins). Only disposals/holdings selected by `keep` are compared.
 #[allow(clippy::too_many_arguments)]
-fn compare(
+pub fn compare(
     leaf: &mut Leaf,
     tag: &str,
     a: &Res,
@@ -119,7 +119,7 @@ fn keep_all_years(keep: &dyn Fn(&IDisposal) -> bool, ds: &[IDisposal]) -> bool {
 }
 
 /// compare tax-year figures too (only meaningful when the two runs cover the same disposals)
-const YEARS: u8 = 1;
+pub const YEARS: u8 = 1;
 /// ... except the dividend totals
 const NO_DIVIDENDS: u8 = 2;
 
@@ -152,13 +152,13 @@ fn mark(lines: &[Line]) -> &'static str {
     if unmerged(lines) { "~unmerged" } else { "" }
 }
 
-fn one(_: &str, _: i64) -> Decimal {
+pub fn one(_: &str, _: i64) -> Decimal {
     Decimal::ONE
 }
-fn all_d(_: &IDisposal) -> bool {
+pub fn all_d(_: &IDisposal) -> bool {
     true
 }
-fn all_h(_: &str) -> bool {
+pub fn all_h(_: &str) -> bool {
     true
 }
 
@@ -205,6 +205,10 @@ mod cli_extract {
     // the CLI's own `read_and_concatenate_files`, extracted from /repo/crates/cgt-cli/src/main.rs by build.rs
     #![allow(dead_code, unused_imports, clippy::all)]
     include!(concat!(env!("OUT_DIR"), "/cli_extract.rs"));
+}
+
+pub fn cli_fx_folder(p: &std::path::Path) -> Option<Vec<cgt_money::RateFile>> {
+    cli_extract::fx_folder(p)
 }
 
 // ------------------------------------------------------------------------------------------------ C06
